@@ -40,7 +40,12 @@ Sources ==
     [n |-> "r",   ty |-> <<"ref", INT>>,                 const |-> FALSE, where |-> "fparam"],
     [n |-> "rs",  ty |-> <<"ref", REC>>,                 const |-> FALSE, where |-> "fparam"],
     [n |-> "tv",  ty |-> INT,                            const |-> FALSE, where |-> "tparam"],
-    [n |-> "tr",  ty |-> <<"ref", INT>>,                 const |-> FALSE, where |-> "tparam"] }
+    [n |-> "tr",  ty |-> <<"ref", INT>>,                 const |-> FALSE, where |-> "tparam"],
+    \* 3.x syntax: process T(int om; const oc1, oc2) - a `const` group declares several constant parameters, every one of them constant
+    [n |-> "oc1", ty |-> <<"const", <<"int">> >>,         const |-> TRUE,  where |-> "oldtparam"],
+    [n |-> "oc2", ty |-> <<"const", <<"int">> >>,         const |-> TRUE,  where |-> "oldtparam"],
+    [n |-> "oc3", ty |-> <<"const", <<"int">> >>,         const |-> TRUE,  where |-> "oldtparam"],
+    [n |-> "om",  ty |-> INT,                            const |-> FALSE, where |-> "oldtparam"] }
 
 (* type.cpp *)
 RECURSIVE ImplMutable(_)
